@@ -21,7 +21,8 @@ RULE = (
     "(b) catalogue meshes + every non-empty face subset (<= 9 faces; isolated faces, holes, corner-touching faces, "
     "valence 1..8) under relabelling / face-order / start-corner deviations <= k, compact and non-compact node sets; "
     "(c) all 6! first-access orders of {node_face, edge_face, face_face, hole_edge_indices, n_max_node_faces, "
-    "n_max_face_faces}; (d) grids whose source supplies edge tables in a different edge order (from_topology kwargs). "
+    "n_max_face_faces}; (d) grids whose source supplies edge tables in a different edge order (from_topology kwargs), built in pristine module state and after another grid "
+    "(of different / of the same size) derived its own edge tables in the same process. "
     "non-trivial = >= 2 faces with at least one shared node, or an isolated face present; distinct = table content"
 )
 ASSUMPTIONS = [
@@ -210,7 +211,7 @@ def run_case(case):
                 continue
             focus = {"kind": "supplied", "mesh": case["mesh"], "only": vname}
             en = np.array([sorted(k, reverse=(vname == "swapped-ends")) for k in order], dtype=np.intp)
-            for with_fe in (False, True):
+            for with_fe, prior in ((False, None), (True, None), (False, "cs2"), (False, "same-size"), (True, "cs2")):
                 kw = {"edge_node_connectivity": en}
                 if with_fe:
                     idx = {k: i for i, k in enumerate(order)}
@@ -221,6 +222,11 @@ def run_case(case):
                     kw["face_edge_connectivity"] = fe
                 try:
                     pool.fresh()  # every execution starts from import-time module state
+                    if prior:
+                        # another grid derived its own edge tables earlier in the same process
+                        pm = meshes.get("cs2") if prior == "cs2" else mesh.reorder_faces(list(range(mesh.n_face))[::-1])
+                        pg = mkgrid(pm.faces, pm.width, pm.n_node, *pm.lonlat())
+                        pg.edge_node_connectivity, pg.face_edge_connectivity, pg.edge_face_connectivity
                     g = ux.Grid.from_topology(lon.copy(), lat.copy(), mesh.table(), fill_value=FILL, **kw)
                 except Exception as e:
                     res["violations"].append({"oracle": "construct", "sig": "c03:supplied:construct:%s" % type(e).__name__, "msg": repr(e), "focus": focus})
@@ -233,12 +239,12 @@ def run_case(case):
                     v.add("supplied", "c03:edge_node-not-carried-over", "the edge numbering supplied by the source was replaced while deriving the other tables (edge-centred source data/coordinates are now misaligned)")
                 res["evaluations"] += 1
                 res["transitions"] += len(OBS) + 5
-                key = digest((case["mesh"], vname, with_fe))
+                key = digest((case["mesh"], vname, with_fe, prior))
                 res["states"].append(key)
                 res["nontrivial"].append(key)
                 res["outcomes"].append(digest(np.asarray(g.edge_face_connectivity.values)) if not v.items else "x")
                 for it in v.items:
-                    res["violations"].append(dict(it, sig=it["sig"].replace("c03:", "c03:supplied-%s:" % ("en+fe" if with_fe else "en"), 1).replace("c02:", "c03:supplied-%s:c02-" % ("en+fe" if with_fe else "en"), 1), focus=focus))
+                    res["violations"].append(dict(it, sig=it["sig"].replace("c03:", "c03:supplied-%s%s:" % ("en+fe" if with_fe else "en", "-after-other-grid" if prior else ""), 1).replace("c02:", "c03:supplied-%s%s:c02-" % ("en+fe" if with_fe else "en", "-after-other-grid" if prior else ""), 1), focus=focus))
         res["axes"] = {"supplied_on": {case["mesh"]: res["evaluations"]}}
         res["sample"] = {"kind": "supplied", "mesh": case["mesh"], "edge_order": "reversed"}
         return res
